@@ -1058,17 +1058,17 @@ def _explore(ctx, drv, rng, tmp, static_cells, effects, mech, tinfo, pool):
     # ---- phase 5: A parsed partly, then B, then A finished: (a) the three public steps of Parser.parse() with complete
     #      parses of other objects (one of them mutated) in between; (b) B's complete parse nested at the k-th function
     #      entry of midgard/parsers inside A.parse() (a logger / callback / other thread of the caller)
-    out_of_time = timed(25.0 if T else 2.0)
-    for n in fams:
+    out_of_time = timed(25.0 if T else 1.5)
+    for n in fams * (4 if T else 1):
         if out_of_time():
             break
-        a = fam[n][0]
+        a = rng.choice(fam[n]) if T else fam[n][0]
         others = (fam[n] + variants[n]["short"] + variants[n]["kw"][:1])
         b, b2 = rng.choice(others), rng.choice(others)
         ex.events(split_events(a, b, b2), "A in the three public steps of parse() around complete parses of B")
         ctx.case({"phase": "split-parse", "A": list(a), "B": list(b), "B2": list(b2)}, nontrivial=True)
         ctx.count("split-parse")
-    out_of_time = timed(40.0 if T else 2.5)
+    out_of_time = timed(40.0 if T else 2.0)
     nest_pairs = [(a, b) for a in header_keys[:6] for b in header_keys[:6]] if not T else [(a, b) for a in header_keys[:12] for b in header_keys[:12]]
     per_fam = [(fam[n][0], rng.choice(fam[n] + variants[n]["short"])) for n in fams if cost[fam[n][0]] < (cheap_limit if T else 0.05)]
     calls: Dict[Key, int] = {}
@@ -1084,7 +1084,7 @@ def _explore(ctx, drv, rng, tmp, static_cells, effects, mech, tinfo, pool):
             ex.log.append(ev("parse_file", a))
         if calls[a] < 2:
             continue
-        ks_ = sorted({1 + calls[a] // 2, rng.randint(2, calls[a]), calls[a]})
+        ks_ = sorted({1 + calls[a] // 2, calls[a]} | {rng.randint(2, calls[a]) for _ in range(8 if T else 1)})
         for kk in (ks_ if T or "header_kind" in info.get(a, {}) else ks_[:2]):
             ex.events([["nest", a[0], a[1], a[2], kk, b[0], b[1], b[2]]], "nested parse", kind="nested-parse-dependence")
             ctx.case({"phase": "nested", "A": list(a), "k": kk, "of": calls[a], "B": list(b)}, nontrivial=True)
